@@ -210,12 +210,22 @@ def ulp_diff_ok(a, b, nulp, dtype):
 POISON_BYTE = 0x5A
 
 
+def poison_prime():
+    """numpy recycles small (<1 KiB) data blocks through its own cache without calling malloc, so
+    MALLOC_PERTURB_ never sees them.  Fill that cache with poisoned blocks so that a recycled
+    block is as recognisable as a fresh one."""
+    for size in range(1, 1025):
+        tmp = [np.full(size, POISON_BYTE, dtype=np.uint8) for _ in range(9)]
+        del tmp
+
+
 def poison_self_test():
     """MALLOC_PERTURB_=165 must make np.empty come back filled with 0x5A."""
     if os.environ.get('MALLOC_PERTURB_') != '165':
         return False
     ok = True
-    for n in (7, 1000, 300000, 6000000):
+    poison_prime()
+    for n in (7, 100, 1000, 2048, 300000, 6000000):
         a = np.empty(n, dtype=np.uint8)
         ok &= bool((a == POISON_BYTE).all())
     return ok
